@@ -946,14 +946,43 @@ pub struct RbCfg {
     pub dlsr: u32,
 }
 impl RbCfg {
+    /// The setters are independent: the order they are called in (and calling one twice, first with another
+    /// value) must not matter.  The order is chosen from the block's own values so that every order occurs and a
+    /// case replays identically.
     pub fn builder(&self) -> ReportBlockBuilder {
-        ReportBlock::builder(self.ssrc)
-            .fraction_lost(self.fraction)
-            .cumulative_lost(self.cumulative)
-            .extended_sequence_number(self.esn)
-            .interarrival_jitter(self.jitter)
-            .last_sender_report_timestamp(self.lsr)
-            .delay_since_last_sender_report_timestamp(self.dlsr)
+        let b = ReportBlock::builder(self.ssrc);
+        match (self.jitter ^ self.esn) % 4 {
+            0 => b
+                .fraction_lost(self.fraction)
+                .cumulative_lost(self.cumulative)
+                .extended_sequence_number(self.esn)
+                .interarrival_jitter(self.jitter)
+                .last_sender_report_timestamp(self.lsr)
+                .delay_since_last_sender_report_timestamp(self.dlsr),
+            1 => b
+                .delay_since_last_sender_report_timestamp(self.dlsr)
+                .last_sender_report_timestamp(self.lsr)
+                .interarrival_jitter(self.jitter)
+                .extended_sequence_number(self.esn)
+                .cumulative_lost(self.cumulative)
+                .fraction_lost(self.fraction),
+            2 => b
+                .last_sender_report_timestamp(self.lsr.wrapping_add(1))
+                .cumulative_lost(self.cumulative)
+                .delay_since_last_sender_report_timestamp(self.dlsr)
+                .fraction_lost(self.fraction.wrapping_add(1))
+                .interarrival_jitter(self.jitter)
+                .last_sender_report_timestamp(self.lsr)
+                .extended_sequence_number(self.esn)
+                .fraction_lost(self.fraction),
+            _ => b
+                .interarrival_jitter(self.jitter)
+                .delay_since_last_sender_report_timestamp(self.dlsr)
+                .extended_sequence_number(self.esn)
+                .last_sender_report_timestamp(self.lsr)
+                .fraction_lost(self.fraction)
+                .cumulative_lost(self.cumulative),
+        }
     }
 }
 #[derive(Debug, Clone)]
